@@ -33,6 +33,10 @@ func propC11(c *Ctx) {
 		c.ruleC11Paren(m)
 		c.ruleOpenTransparent(m, "C11-OPEN-TRANSPARENT")
 		c.ruleCommentBeforeOpen("C11-COMMENT-BEFORE-OPEN")
+		// the states entered after '(' return by popping: a pop with nothing pushed refuses a well-nested document
+		c.R.Only = func(rule string) bool { return rule == "C01-PDS-UNDERFLOW" }
+		c.ruleC01Scanner(m, false)
+		c.R.Only = nil
 		c.ruleEOFAsEOL(m, c.Analysis(stackK, false)) // a context opened at the very end of an included file is closed by the including one
 	}
 }
